@@ -3,10 +3,12 @@ sys.path.insert(0, '/verif')
 from sim.survey import evaluate
 from sim import gen
 prof, seed = sys.argv[1], int(sys.argv[2])
+only = sys.argv[3] if len(sys.argv) > 3 else None
 sc = json.load(open(prof)) if prof.endswith('.json') else gen.gen(prof, seed)
 print(json.dumps(sc))
 w, res, F, V = evaluate(sc)
-for r in w.recs: print(r)
+for r in w.recs: print(str(r)[:220])
 res['errlog']=[x[:100] for x in res['errlog'][:3]]
 print({k: v for k, v in res.items() if k not in ('files',)})
-for v in V: print(v)
+for v in V:
+    if only is None or v['clause'].startswith(only): print(v)
